@@ -680,6 +680,9 @@ pub fn replay_main(args: &[String]) -> i32 {
             return 2;
         }
     };
+    if args.iter().any(|a| a == "--dump") {
+        std::env::set_var("LSIM_DUMP_EVENTS", "1");
+    }
     let r = props::run_plan(&rf.plan);
     let same = r.violations.iter().find(|v| v.class == rf.class);
     if !quiet {
